@@ -562,3 +562,15 @@ func precedenceOfKinds(kind1 reflect.Kind, kind2 reflect.Kind) reflect.Kind {
 	}
 	return kind1
 }
+
+// detach returns a copy of a value that is still tied to the storage it was
+// read from (an element of a typed slice, a struct field, the target of a
+// pointer), so that a variable bound to it keeps the value it was given when
+// that storage is written later. Structs and arrays stay as they are:
+// assigning to their fields and elements relies on their being addressable.
+func detach(rv reflect.Value) reflect.Value {
+	if rv.CanAddr() && rv.CanInterface() && rv.Kind() != reflect.Struct && rv.Kind() != reflect.Array && rv.Kind() != reflect.Interface {
+		return reflect.ValueOf(rv.Interface())
+	}
+	return rv
+}
